@@ -36,10 +36,15 @@ func c08Progress(p c08Params) Scenario {
 		for i, k := range p.Kinds {
 			tag := uint16(100 + i)
 			s.tags = append(s.tags, tag)
-			s.msgs = append(s.msgs, s.prepare(k, uint32(10+i), tag))
+			s.msgs = append(s.msgs, s.prepare(strings.TrimSuffix(k, "+destroy"), uint32(10+i), tag))
 		}
 		for _, i := range p.Parked {
 			s.gates[i] = vs.NewSem(0)
+			if strings.HasSuffix(p.Kinds[i], "+destroy") {
+				// the implementation answers at once and then blocks in FidDestroy
+				s.fs.Script[reqKey{0, s.tags[i], 0}] = &Action{DestroyGate: s.gates[i]}
+				continue
+			}
 			s.fs.Script[reqKey{0, s.tags[i], 0}] = &Action{Gate: s.gates[i]}
 		}
 		c2 = nil
@@ -92,6 +97,9 @@ func c08Progress(p c08Params) Scenario {
 			isParked[i] = true
 		}
 		for i, t := range s.tags {
+			if strings.HasSuffix(p.Kinds[i], "+destroy") {
+				continue // its own reply may or may not wait for its own FidDestroy
+			}
 			if !isParked[i] && !phase1[t] {
 				return &Viol{Sig: "C08/delayed-by-blocked-request/" + p.Kinds[i], Msg: fmt.Sprintf("request %d (%s) had no reply while requests %v were blocked in the implementation and nothing else could run\n%s", i, s.msgs[i], p.Parked, framesString(frames)), Detail: detail}
 			}
@@ -285,6 +293,26 @@ func subsets(n int) [][]int {
 	return out
 }
 
+// the implementation is slow inside FidDestroy (reached from the Tclunk / Tremove that
+// drops the last reference): requests with other tags still have to be answered
+func c08DestroyScenarios(P int) []Scenario {
+	var out []Scenario
+	for i, ks := range [][]string{{"clunk+destroy", "stat"}, {"remove+destroy", "walk"}, {"clunk+destroy", "read", "clunk"}, {"clunk+destroy", "clunk+destroy", "open"}} {
+		var parked []int
+		for j, k := range ks {
+			if strings.HasSuffix(k, "+destroy") {
+				parked = append(parked, j)
+			}
+		}
+		pp := P
+		if len(ks) > 2 {
+			pp = P - 1
+		}
+		out = append(out, c08Progress(c08Params{Kinds: ks, Parked: parked, Release: parked, TwoConns: i%2 == 0, Maxpend: i % 3, Dotu: i%2 == 1, P: pp}))
+	}
+	return out
+}
+
 func c08Scenarios(tier string) []Scenario {
 	var out []Scenario
 	kinds := []string{"read", "stat", "write", "walk", "clunk", "open"}
@@ -304,6 +332,7 @@ func c08Scenarios(tier string) []Scenario {
 			}
 		}
 		out = append(out, c08Progress(c08Params{Kinds: []string{"write", "stat"}, Parked: []int{0}, Release: []int{0}, TwoConns: true, Maxpend: 0, P: 1}))
+		out = append(out, c08DestroyScenarios(2)...)
 		out = append(out, c08Group(c08GroupParams{Group: 2, FirstGate: true, Others: 1, Maxpend: 0, Dotu: true, P: 2}))
 		out = append(out, c08Group(c08GroupParams{Group: 2, FirstGate: false, Others: 0, Maxpend: 1, Split: true, P: 2}))
 		out = append(out, c08Group(c08GroupParams{Group: 3, FirstGate: true, Others: 2, Maxpend: 2, P: 1}))
@@ -330,6 +359,7 @@ func c08Scenarios(tier string) []Scenario {
 		}
 	}
 	out = append(out, c08Progress(c08Params{Kinds: []string{"read", "stat", "write", "walk", "clunk", "open", "stat", "read"}, Parked: []int{0, 2, 3, 4, 5, 6}, Release: []int{6, 5, 4, 3, 2, 0}, TwoConns: true, Maxpend: 1, P: 0}))
+	out = append(out, c08DestroyScenarios(3)...)
 	for _, g := range []int{2, 3} {
 		for _, fg := range []bool{true, false} {
 			for _, mp := range []int{0, 1, 2} {
@@ -349,7 +379,7 @@ func c08Scenarios(tier string) []Scenario {
 func init() {
 	register(&Property{ID: "C08", Level: "model_checking",
 		Technique: "stateless model checking of the real server under a controlled scheduler (all schedules within a preemption bound); blocking decided at quiescent states, no clocks",
-		Rule:      "every schedule with at most P preemptions per scenario: (a) every non-empty proper subset of n requests parked in the implementation, every release order, one or two connections, Maxpend 0..2 - at the quiescent state reached while the subset is parked every other request must have its reply; (b) groups of 2..8 requests under one tag mixed with other tags - start/finish intervals in the implementation log disjoint and in arrival order, replies in that order. distinct = distinct per-object operation orders",
+		Rule:      "every schedule with at most P preemptions per scenario: (a) every non-empty proper subset of n requests parked in the implementation, every release order, one or two connections, Maxpend 0..2, plus implementations blocked inside FidDestroy - at the quiescent state reached while the subset is parked every other request must have its reply; (b) groups of 2..8 requests under one tag mixed with other tags - start/finish intervals in the implementation log disjoint and in arrival order, replies in that order. distinct = distinct per-object operation orders",
 		Assumptions: []string{"code between two synchronisation operations is atomic (race-free executions)", "transport modelled as an unbounded reliable byte queue", "'delayed' means: not answered in a state where nothing but the blocked requests could still run"},
 		Scenarios:   c08Scenarios, QuickS: 100, ThoroughS: 1500})
 }
